@@ -50,7 +50,7 @@ func toRegexString(pattern string) string {
 	pattern = "^" + pattern + "$"
 	pattern = strings.ReplaceAll(pattern, "+", "\\+")         // escape +
 	pattern = strings.ReplaceAll(pattern, ".", "\\.")         // escape .
-	pattern = strings.ReplaceAll(pattern, "?", ".")           // match ? as any single char
+	pattern = strings.ReplaceAll(pattern, "?", "[^/]")        // match ? as any single char of a path component
 	pattern = strings.ReplaceAll(pattern, "*", "[^/]*")       // handle single (all) * components
 	pattern = strings.ReplaceAll(pattern, "[^/]*[^/]*", ".*") // handle ** components
 	pattern = strings.ReplaceAll(pattern, "/.*/", "/(.*/)?")  // Allow ** to match zero directories
